@@ -127,3 +127,24 @@ End Sums.
 Arguments lsum {R} rO radd {A} f l.
 Arguments zsum_from {R} rO radd lo n f.
 Arguments zsum_range {R} rO radd lo hi f.
+
+Section SumsSwap.
+Variable R : Type.
+Variables (rO rI : R) (radd rmul rsub : R -> R -> R) (ropp : R -> R).
+Variable Rth : ring_theory rO rI radd rmul rsub ropp eq.
+Add Ring Rring3 : Rth.
+
+Lemma zsum_from_swap lo1 n1 lo2 n2 (f : Z -> Z -> R) :
+  zsum_from rO radd lo1 n1 (fun i => zsum_from rO radd lo2 n2 (fun j => f i j))
+  = zsum_from rO radd lo2 n2 (fun j => zsum_from rO radd lo1 n1 (fun i => f i j)).
+Proof.
+  revert lo1. induction n1 as [|n1 IH]; intros lo1; cbn [zsum_from].
+  - symmetry. apply (zsum_from_zero R rO rI radd rmul rsub ropp Rth). reflexivity.
+  - rewrite IH. rewrite <- (zsum_from_add R rO rI radd rmul rsub ropp Rth). reflexivity.
+Qed.
+
+Lemma zsum_range_swap lo1 hi1 lo2 hi2 (f : Z -> Z -> R) :
+  zsum_range rO radd lo1 hi1 (fun i => zsum_range rO radd lo2 hi2 (fun j => f i j))
+  = zsum_range rO radd lo2 hi2 (fun j => zsum_range rO radd lo1 hi1 (fun i => f i j)).
+Proof. unfold zsum_range. apply zsum_from_swap. Qed.
+End SumsSwap.
